@@ -236,7 +236,10 @@ def run(ctx):
             continue
         near = np.nonzero(np.any((P < 0.1) | (P > 0.9), axis=1))[0]
         for oname, op in (("vertices_to_polygon (vertices near the cell walls)", lambda x: gu.vertices_to_polygon(x, near if len(near) else None)), ("vertices_to_polygon (all)", lambda x: gu.vertices_to_polygon(x)),
-                          ("cut_boundaries", lambda x: cut_boundaries(x)), ("remove_trailing_edges", lambda x: gu.remove_trailing_edges(x)), ("vertex_neighbours / clockwise", lambda x: [gu.clockwise_edges_about(v, x) for v in range(min(4, x.n_vertices))])):
+                          ("cut_boundaries", lambda x: cut_boundaries(x)), ("remove_trailing_edges", lambda x: gu.remove_trailing_edges(x)), ("vertex_neighbours / clockwise", lambda x: [gu.clockwise_edges_about(v, x) for v in range(min(4, x.n_vertices))]),
+                          ("make_dual", lambda x: gu.make_dual(x)), ("make_dual (point averages)", lambda x: gu.make_dual(x, True)), ("make_dual twice", lambda x: [gu.make_dual(x), gu.make_dual(x)]),
+                          ("plaquette_spanning_tree", lambda x: gu.plaquette_spanning_tree(x)), ("ujk_from_fluxes", lambda x: ff.ujk_from_fluxes(x, np.ones(x.n_plaquettes, dtype=np.int8))),
+                          ("fluxes_from_ujk, then make_dual", lambda x: [ff.fluxes_from_ujk(x, u), gu.make_dual(x)]), ("adjacent-plaquette tables read, then make_dual", lambda x: [x.edges.adjacent_plaquettes, x.vertices.adjacent_plaquettes, gu.make_dual(x)])):
             lt = Lattice(P.copy(), E.copy(), C.copy())
             try:
                 import warnings as _w
@@ -250,7 +253,7 @@ def run(ctx):
             except Exception as ex:
                 ctx.impl_violation(f"{name}: fluxes_from_ujk raised {type(ex).__name__}: {ex} on a lattice on which {oname} had been called first", dict(case=name, lattice=zoo.lat_to_json(l), u=u.tolist(), before=oname)); break
             if len(got) != len(want) or not np.array_equal(got, want):
-                ctx.impl_violation(f"{name}: the fluxes of a freshly built lattice differ ({len(got)} values) from those of an untouched twin ({len(want)}) when {oname} is called on it before its plaquettes are first computed",
+                ctx.impl_violation(f"{name}: the fluxes of a freshly built lattice differ ({len(got)} values) from those of an untouched twin ({len(want)}) when {oname} is called on it first",
                                    dict(case=name, lattice=zoo.lat_to_json(l), u=u.tolist(), before=oname)); break
         ctx.case((name, "operations before the first plaquette access"), nontrivial=True)
     # ---- a lattice with more than 65 536 edges (and fewer vertices): bond indices beyond 16 bits.  Judged without the plaquettes' own edge lists: a flipped
